@@ -11,6 +11,8 @@ SENSE = {
     "f1": bytes([0x70, 0, 5, 0, 0, 0, 0, 10, 0, 0, 0, 0, 0x24, 0x00, 0, 0, 0, 0]),
     "d2": bytes([0x72, 6, 0x29, 0x00, 0, 0, 0, 0]),
     "f3": bytes([0xF0, 0, 2, 0, 0, 0, 1, 10, 0, 0, 0, 0, 0x04, 0x01, 0, 0, 0, 0]),
+    "t8": bytes([0x70, 0, 3, 0, 0, 0, 0, 0]),
+    "t4": bytes([0x72, 4, 0x44, 0x00]),
 }
 ROUTES = ("direct", "direct_prevraw", "facade_execute", "facade_execute_prevraw", "facade_tur", "facade_inquiry", "facade_ata")
 
@@ -269,7 +271,7 @@ def run(chk, replay=None):
             for _ in range(50 if chk.quick else 20000):
                 cmd = rng.choice(objs)
                 st = rng.choice([0, 0, 2, 2, 2, 8, 24, 40, 48, 64, 4, rng.randint(0, 255)])
-                s = rng.choice(["none", "f1", "d2", "f3", "f1"]) if st == 2 else "none"
+                s = rng.choice(["none", "f1", "d2", "f3", "f1", "t8", "t4"]) if st == 2 else "none"
                 raw = rng.random() < 0.3
                 w.state.update(st=st, s=SENSE[s])
                 o = observe(lambda: dev.execute(cmd, en_raw_sense=raw) and None, lambda: cmd)
